@@ -44,6 +44,18 @@ OPS = [
 ]
 
 
+OPS2 = [
+    ('zero-one', re.compile(r'(?<![\w.])([01])(?![\w.])(?!\s*=>)'), {'0': '1', '1': '0'}),
+    ('range', re.compile(r'(\.\.=|\.\.)(?=[\w(&*\]])'), {'..=': '..', '..': '..='}),
+    ('rev', re.compile(r'\.rev\(\)'), None),
+    ('minmax', re.compile(r'\b(min|max)\('), {'min': 'max', 'max': 'min'}),
+    ('lr', re.compile(r'\b(left|right)\b'), {'left': 'right', 'right': 'left'}),
+    ('firstlast', re.compile(r'\.(first|last)(_mut)?\(\)'), {'first': 'last', 'last': 'first'}),
+]
+if os.environ.get('MUT_OPS') == '2':
+    OPS = OPS2
+
+
 def eligible(line):
     t = line.strip()
     if not t or t.startswith('//') or t.startswith('#[') or t.startswith('use ') or t.startswith('pub use '):
@@ -81,7 +93,9 @@ def sites(repo):
                     continue
             for name, rx, table in OPS:
                 for m in rx.finditer(code):
-                    if name == 'del':
+                    if name == 'rev':
+                        new = code[:m.start()] + code[m.end():] + line[len(code):]
+                    elif name == 'del':
                         new = ''
                     elif name == 'inc':
                         new = code[:m.start()] + code[m.end():] + line[len(code):]
